@@ -179,6 +179,32 @@ func check(c Case) (kind, what string, nt bool) {
 			return "reader-dependent", fmt.Sprintf("header decoded from a %s positioned after %d prefix bytes differs from the one decoded at offset 0: %v / %v (header %s)", kind, prefix, rerr3, rerr, c.Header), true
 		}
 	}
+	// ... and from a *bufio.Reader that has already delivered earlier parts of a longer stream, so that the header
+	// lies anywhere in its buffer - right at the end of it in particular - and more data follows the profile
+	{
+		hh := int(h[99]) + int(h[80])<<8
+		size := []int{4096, 4096, 256, 16, 65536, 200}[hh%6]
+		prefix := []int{size - 196, size - 132, size - 128, size - 100, size - 4, size, size + 7, 1, 3 * size}[(hh/6)%9]
+		if prefix < 0 {
+			prefix = 0
+		}
+		stream := append(bytes.Repeat([]byte{0xA5, 0x5A, 0x00, 0xFF}, prefix/4+1)[:prefix], data...)
+		stream = append(stream, bytes.Repeat([]byte("following stream data "), 300)...)
+		var p4 *icc.Profile
+		var rerr4 error
+		if pn, msg := ev.Guard(func() {
+			br := bufio.NewReaderSize(bytes.NewReader(stream), size)
+			if _, err := br.Discard(prefix); err != nil {
+				panic(err)
+			}
+			p4, rerr4 = icc.NewProfileReader(br).ReadProfile()
+		}); pn {
+			return "panic", msg, true
+		}
+		if (rerr == nil) != (rerr4 == nil) || (rerr == nil && !reflect.DeepEqual(p.Header, p4.Header)) {
+			return "reader-dependent", fmt.Sprintf("header decoded from a bufio.Reader of %d bytes that had already delivered %d bytes of the stream differs from the one decoded at offset 0: %v / %v (header %s)", size, prefix, rerr4, rerr, c.Header), true
+		}
+	}
 	if (rerr == nil) != (rerr2 == nil) || (rerr == nil && !reflect.DeepEqual(p.Header, p2.Header)) {
 		return "reader-dependent", fmt.Sprintf("header decoded from a short-reading buffered reader differs from the one decoded from bytes.Reader: %v / %v (header %s)", rerr2, rerr, c.Header), true
 	}
